@@ -20,6 +20,7 @@ def sh(cmd, cwd=None):
 
 
 def main():
+    os.environ["FV_EVIDENCE_DIR"] = "/tmp/fv_seed_evidence"  # keep /verif/evidence for runs on the unchanged tree
     patch = os.path.abspath(sys.argv[1])
     props = sys.argv[2:] or sorted(f[:-5] for f in os.listdir(os.path.join(V, "tools", "claims")) if f.endswith(".json"))
     rc, out = sh("git -C /repo status --porcelain")
